@@ -87,9 +87,15 @@ def run_c05(rep, tier, seed):
         if len(xs) and i % 5 == 0:
             numba.set_num_threads(threads[-1])
             rep.case(klass=("histogram2d-explicit", i % 97, n))
-            X, Y = osyris.Array(xs, unit="m"), osyris.Array(ys, unit="s")
-            L = Layer(osyris.Array(xs * 0.5 + 1.0, unit="K", name="w"), operation="mean")
-            S = Layer(osyris.Array(xs * 0.5 + 1.0, unit="K", name="w2"), operation="sum")
+            xs2, ys2, ws2 = xs, ys, xs * 0.5 + 1.0
+            if i % 10 == 5:
+                # a point without finite coordinates ahead of the others: it is in no bin, and neither is its value
+                xs2 = np.concatenate([[np.nan], xs]).astype(float)
+                ys2 = np.concatenate([[float(ys[0])], ys]).astype(float)
+                ws2 = np.concatenate([[1.0e6], ws2])
+            X, Y = osyris.Array(xs2, unit="m"), osyris.Array(ys2, unit="s")
+            L = Layer(osyris.Array(ws2, unit="K", name="w"), operation="mean")
+            S = Layer(osyris.Array(ws2, unit="K", name="w2"), operation="sum")
             try:
                 p = osyris.histogram2d(X, Y, L, S, resolution=n, xmin=float(s["lx"][0]), xmax=float(s["lx"][1]),
                                        ymin=float(s["ly"][0]), ymax=float(s["ly"][1]), plot=False)
